@@ -56,7 +56,7 @@ Proof.
 Qed.
 
 Lemma raw_ev_str d mt a : mt = 2%N \/ mt = 3%N -> short a -> raw_ev d (head mt (N.of_nat (length a)) ++ a).
-Proof. intros Hmt Hl r. apply ev_S0. intros f. rewrite <- app_assoc. now apply dec_raw_str. Qed.
+Proof. intros Hmt Hl r. apply ev_S0. intros f. rewrite <- app_assoc. apply dec_raw_str; [exact Hmt|exact Hl]. Qed.
 
 Lemma Forall2_diag {A} (R : A -> A -> Prop) l : Forall (fun x => R x x) l -> Forall2 R l l.
 Proof. induction 1; constructor; auto. Qed.
@@ -88,11 +88,11 @@ Qed.
 Definition kv_items (kvs : list (bytes * bytes)) : list bytes := flat_map (fun kv => [fst kv; snd kv]) kvs.
 Lemma kv_items_concat kvs : concat (kv_items kvs) = concat (map (fun kv => fst kv ++ snd kv) kvs).
 Proof.
-  induction kvs as [|[k v] kvs IH]; [reflexivity|]. cbn [kv_items flat_map map concat app fst snd] in *.
+  unfold kv_items. induction kvs as [|[k v] kvs IH]; [reflexivity|]. cbn [flat_map map concat app fst snd].
   now rewrite IH, <- app_assoc.
 Qed.
 Lemma kv_items_length kvs : length (kv_items kvs) = 2 * length kvs.
-Proof. induction kvs as [|[k v] kvs IH]; [reflexivity|]. cbn [kv_items flat_map app length] in *. lia. Qed.
+Proof. unfold kv_items. induction kvs as [|[k v] kvs IH]; [reflexivity|]. cbn [flat_map app length] in *. lia. Qed.
 
 Lemma kv_insert_Forall (P : bytes * bytes -> Prop) k v l : P (k, v) -> Forall P l -> Forall P (kv_insert k v l).
 Proof.
